@@ -265,7 +265,232 @@ def check_C09(tier, seed):
     return rep
 
 
+# ---------------------------------------------------------------------------------------------
+# E2: symbolic execution of the emitted bash script
+
+PROBES = {'c1': 'bbb\nccc\n', 'c2': 'dd\n', 'c3': 'x1\ny1\n', 'c4': 'q\n'}
+
+
+def probe(pid):
+    return 'cgvprobe %s "$1" "$2"' % pid
+
+
+def gen_e2(seed, count, **kw):
+    pool = [probe(p) for p in ('c1', 'c2', 'c3', 'c4')]
+    ids = ['c1', 'c2', 'c3', 'c4']
+    kw.setdefault('allow_builtin', False)
+    g = gram.Gen(seed, cmd_pool=pool, def_cmd=lambda sh, n: probe(ids[(n + len(sh or '')) % 4]), max_depth=3, **kw)
+    out = []
+    for i in range(count):
+        out.append(g.grammar(nvariants=1 if g.r.random() < 0.8 else 2))
+    return out
+
+
+def family_c01(tier, seed):
+    L, S, A, F, Sub, Ref, Opt, Many, Cmd = gram.Lit, gram.Seq, gram.Alt, gram.Fb, gram.Sub, gram.Ref, gram.Opt, gram.Many, gram.Cmd
+    fams = []
+    fams.append(('exhaustive<=%d' % (4 if tier == 'quick' else 5), gram.exhaustive_family(4 if tier == 'quick' else 5)))
+    shapes = [
+        gram.mk('cmd', F(L('aaa'), Cmd(probe('c1')))),
+        gram.mk('cmd', S(Sub(L('--o='), A(L('a'), L('b'))), L('x'))),
+        gram.mk('cmd', S(Sub(L('k='), Cmd(probe('c1'))), L('x'))),
+        gram.mk('cmd', S(A(Cmd(probe('c1')), Cmd(probe('c2'))), L('x'))),
+        gram.mk('cmd', S(Ref('_'), L('x'), Ref('UNDEF'), Opt(L('y')))),
+        gram.mk('cmd', S(F(L('foo'), L('--bar'), Cmd(probe('c2'))), L('x'))),
+        gram.mk('cmd', S(Sub(L('--o='), F(L('pri'), L('sec'))), L('x'))),
+        gram.mk('cmd', S(Ref('N'), Many(A(L('p'), Ref('M')))), [('N', None, A(L('u'), S(L('v'), Ref('M')))), ('M', None, Sub(L('m:'), A(L('1'), L('2'))))]),
+        gram.mk('cmd', S(L('a=b'), A(L('c:d'), L('c:e')), L('x'))),
+        gram.mk('cmd', S(Sub(L('o:'), A(L('p=1'), L('q=2'))), L('x'))),
+        gram.mk('cmd', S(Ref('X'), L('z')), [('X', 'bash', Cmd(probe('c3'))), ('X', None, Cmd(probe('c4'))), ('X', 'zsh', Cmd(probe('c1')))]),
+        gram.mk('cmd', S(L('f', 'descr f'), gram.Descr(A(L('g'), S(L('h'), L('i'))), 'dd'), L('z'))),
+    ]
+    fams.append(('shapes', shapes))
+    fams.append(('random(seed=%d)' % seed, gen_e2(seed, 40 if tier == 'quick' else 400)))
+    return fams
+
+
+def family_c12(tier, seed):
+    import itertools
+    L, S, A, Sub, Opt = gram.Lit, gram.Seq, gram.Alt, gram.Sub, gram.Opt
+    pool = ['a', 'ab', 'abc', 'abcd', 'b', 'ba']
+    out = []
+    sizes = (2, 3) if tier == 'quick' else (2, 3, 4)
+    for n in sizes:
+        for vs in itertools.combinations(pool, n):
+            if not any(x != y and (x.startswith(y) or y.startswith(x)) for x in vs for y in vs):
+                continue
+            out.append(gram.mk('cmd', S(Sub(L('--o='), A(*[L(v) for v in vs])), L('x'))))
+            if tier != 'quick' or n == 2:
+                out.append(gram.mk('cmd', S(Sub(L('p'), A(*[L(v) for v in reversed(vs)])), Opt(L('x')), L('y'))))
+    return [('prefix-chain value sets', out)]
+
+
+E2_REQUIRED_EVENTS = {
+    'C17': ('literal-step', 'within-word-step', 'command-step', 'fallback-level-used', 'nonempty-reply', 'unmatched'),
+    'C01': ('literal-step', 'within-word-step', 'command-step', 'any-word-step', 'fallback-level-used',
+            'nonempty-reply', 'return-1', 'unmatched'),
+    'C12': ('literal-step', 'within-word-step', 'nonempty-reply', 'unmatched'),
+}
+
+
+def run_e2(prop, tier, seed, families, K, configs, allow_regions=(), max_paths=6000, extra=None):
+    from . import e2
+    rep = Report(prop, tier, seed, 'other')
+    common.ensure_built()
+    jobs = []
+    fam_sizes = {}
+    for name, gs in families:
+        fam_sizes[name] = len(gs)
+        for g in gs:
+            j = {'grammar': g, 'probes': PROBES, 'K': K, 'configs': configs, 'max_paths': max_paths,
+                 'allow_regions': allow_regions}
+            if extra:
+                j.update(extra)
+            jobs.append(j)
+    results = pool_map(e2.analyse, jobs, chunksize=1)
+    status = {}
+    paths = 0
+    queries = {}
+    solver_s = 0.0
+    validated = 0
+    cexs = 0
+    events = set()
+    sites = set()
+    nontrivial = set()
+    programs = 0
+    samples = []
+    regions = {}
+    bounds = {}
+    for r in results:
+        status[r['status']] = status.get(r['status'], 0) + 1
+        paths += r['paths']
+        solver_s += r['solver_s']
+        validated += r['validated']
+        cexs += r['cex_checked']
+        events.update(r.get('events', ()))
+        sites.update(r.get('sites', ()))
+        for k, v in r['queries'].items():
+            queries[k] = queries.get(k, 0) + v
+        for reason in r['region']:
+            regions[reason] = regions.get(reason, 0) + 1
+        if r['status'] == 'ok':
+            programs += 1
+            if r['nontrivial']:
+                nontrivial.add(r['text'])
+            if len(samples) < 5 and r['nontrivial']:
+                samples.append({'grammar': r['text'], 'paths': r['paths'], 'bounds': r.get('bounds')})
+            b = r.get('bounds')
+            if b:
+                bounds['max_L'] = max(bounds.get('max_L', 0), b['L'])
+        for (key, what, payload) in r['violations']:
+            rep.violation(key, what, payload)
+        for inc in r['inconclusive']:
+            rep.inconclusive.append(inc)
+    missing = [e for e in E2_REQUIRED_EVENTS.get(prop, ()) if e not in events]
+    if missing:
+        rep.inconclusive.append('vacuity guard: no path of this run exercised %s' % ', '.join(missing))
+    if validated == 0:
+        rep.inconclusive.append('interpreter validation did not run')
+    rep.coverage = {
+        'explanation': 'Symbolic execution (own interpreter, cgv/bashsym.py) of the bash script emitted by the real complgen binary for each '
+                       'program, with all complete words and the partially typed word symbolic (bounded byte vectors, QF_BV); per path z3 decides '
+                       'whether COMPREPLY can differ from the reference semantics (cgv/refsym.py) for any word values satisfying the path condition; '
+                       'every solver counterexample is replayed in the real bash 5.2 and only a reproducing one is reported. A second query per path '
+                       'asks whether a difference exists that the listed known deviations do not explain.',
+        'evaluations': paths,
+        'distinct_nontrivial': len(nontrivial),
+        'rule': 'evaluations = symbolic paths explored (each stands for every word assignment satisfying its path condition); a program is '
+                'non-trivial if its reference automaton has >= 3 states or a within-word expression; distinct by grammar text',
+        'samples': samples or [{'grammar': results[0]['text']}],
+        'programs': programs,
+        'families': fam_sizes,
+        'status_counts': status,
+        'excluded_by_region_query': regions,
+        'bounds': {'complete_words_K': '0..%d' % K, 'word_length_L': '<= longest vocabulary item + 1 (max seen %s)' % bounds.get('max_L'),
+                   'alphabet': 'characters of the vocabulary and command outputs plus z = : (no glob metacharacters)',
+                   'COMP_WORDBREAKS': configs},
+        'paths': paths,
+        'solver_queries': queries,
+        'solver_queries_total': sum(queries.values()),
+        'solver_time_s': round(solver_s, 2),
+        'counterexamples_replayed_in_real_bash': cexs,
+        'interpreter_runs_validated_against_real_bash': validated,
+        'vacuity_events_seen': sorted(events),
+        'symbolic_pattern_sites_assumed_glob_free': sorted(sites),
+        'functions_encoded': ['emitted _<cmd>', '_<cmd>_subword', '_<cmd>_subword_N', '_<cmd>_subword_shape_N',
+                              '_<cmd>_cmd_N', '__complgen_match'],
+    }
+    rep.assumptions = [
+        'bash-completion _get_comp_words_by_ref replaced by the stub words=("${COMP_WORDS[@]}"); cword=$COMP_CWORD (as the property states)',
+        'bind -v modelled as completion-ignore-case off',
+        'external commands are probes with fixed output (cgvprobe ID "$1" "$2")',
+        'sort -nrk2,2 -rk3 and cut -f1 -d" " modelled on concrete data; LC_ALL=C',
+        'words contain no glob metacharacters at the sites where the script uses a word as an unquoted pattern',
+        'a candidate identical to the text already typed is neither required nor forbidden',
+        'the interpreter is validated against the real bash on the witnesses of sampled paths in every run',
+    ]
+    return rep
+
+
+def check_C01(tier, seed):
+    from . import e2
+    return run_e2('C01', tier, seed, family_c01(tier, seed), K=2 if tier == 'quick' else 2,
+                  configs=[e2.DEFAULT_WB, ''])
+
+
+def check_C12(tier, seed):
+    from . import e2
+    rep = run_e2('C12', tier, seed, family_c12(tier, seed), K=2, configs=[e2.DEFAULT_WB],
+                 allow_regions=('not-prefix-free-inside-word',), extra={'only_matched': True})
+    rep.assumptions.append('only command lines whose complete words are matched by the grammar are considered (fully typed allowed values '
+                           'followed by further words; any prefix as the typed word); unmatched words are C01\'s subject')
+    return rep
+
+
+PROBES_C17 = {'c1': 'bbb\nccc\n', 'c2': 'dd\n', 'c5': 'foo bar\tdescr one\nbaz\tdescr\n', 'c6': 'x y\n', 'c7': 'k1\tonly descr\n'}
+
+
+def family_c17(tier, seed):
+    L, S, A, F, Sub, Ref, Opt, Many, Cmd = gram.Lit, gram.Seq, gram.Alt, gram.Fb, gram.Sub, gram.Ref, gram.Opt, gram.Many, gram.Cmd
+    out = []
+    for pid in ('c1', 'c5', 'c6'):
+        c = Cmd(probe(pid))
+        out.append(gram.mk('cmd', S(c, L('x'))))                          # top level
+        out.append(gram.mk('cmd', S(L('a'), Opt(c), L('x'))))             # under []
+        out.append(gram.mk('cmd', S(Many(c), L('x'))))                    # under ...
+        out.append(gram.mk('cmd', S(A(L('lit'), c), L('x'))))             # under |
+        out.append(gram.mk('cmd', S(F(L('lit'), c), L('x'))))             # under ||, later branch
+        out.append(gram.mk('cmd', S(F(c, L('lit')), L('x'))))             # under ||, first branch
+        out.append(gram.mk('cmd', S(Sub(L('k='), c), L('x'))))            # inside a word after a literal prefix
+        out.append(gram.mk('cmd', S(Sub(L('k='), A(L('v'), c)), L('x'))))
+        out.append(gram.mk('cmd', S(Ref('N'), L('x')), [('N', None, c)]))  # through a definition
+        out.append(gram.mk('cmd', S(Ref('N'), L('x')), [('N', 'bash', c), ('N', None, Cmd(probe('c2'))), ('N', 'fish', Cmd(probe('c7')))]))
+        out.append(gram.mk('cmd', S(Sub(L('o='), Ref('N')), L('x')), [('N', 'bash', c)]))
+        out.append(gram.mk('cmd', S(Ref('W'), L('x')), [('W', None, A(S(L('y'), Ref('N')), L('w'))), ('N', None, c)]))
+    out.append(gram.mk('cmd', S(A(Cmd(probe('c1')), Cmd(probe('c2'))), L('x'))))
+    out.append(gram.mk('cmd', S(Cmd(probe('c1')), Cmd(probe('c2')), L('x'))))
+    out.append(gram.mk('cmd', S(L('a'), Ref('U'), Cmd(probe('c2')))))
+    out.extend(gen_e2(seed + 17, 20 if tier == 'quick' else 200, allow_descr=False))
+    return [('commands at every syntactic position', out)]
+
+
+def check_C17(tier, seed):
+    from . import e2
+    global PROBES
+    saved = PROBES
+    PROBES = dict(PROBES, **PROBES_C17)
+    try:
+        rep = run_e2('C17', tier, seed, family_c17(tier, seed), K=2, configs=[e2.DEFAULT_WB],
+                     extra={'check_log': True, 'extra_alphabet': 'z= '})
+    finally:
+        PROBES = saved
+    return rep
+
+
 CHECKS = {
+    'C17': check_C17,
+    'C01': check_C01,
+    'C12': check_C12,
     'C09': check_C09,
     'C02': check_C02,
     'C03': check_C03,
